@@ -25,7 +25,7 @@ ASSUMPTIONS = ["Mie far field (validated against the textbook series in C02)"
                "alphabet values only; a 120 s horizon per execution"]
 TOLERANCES = {"sphere-scatmat": 1e-4, "sphere-field": 1e-4,
               "sphere-lens": 1e-4, "equal-axes": 1e-4, "symmetry": 1e-7}
-TIMEOUT = 120
+TIMEOUT = 600
 DEATH_IS_VIOLATION = True
 
 XS = {"quick": [5.0, 0.1, 20.0], "thorough": [5.0, 0.1, 1.0, 10.0, 20.0]}
